@@ -737,5 +737,6 @@ fn get_max_packet_points(prototype: &[Record]) -> usize {
     let headers_size = DataPacketHeader::SIZE + bs_size_headers;
     let max_incomplete_bytes = prototype.len();
     let u16_max = u16::MAX as usize;
-    ((u16_max - headers_size - max_incomplete_bytes - SAFETY_MARGIN) * 8) / point_size_bits
+    // A point needs zero bits if all records have min == max: avoid the division by zero
+    ((u16_max - headers_size - max_incomplete_bytes - SAFETY_MARGIN) * 8) / point_size_bits.max(1)
 }
